@@ -54,14 +54,51 @@ def do_run(ids):
                 results.setdefault(sid, {})[prop] = {"exit": r.returncode, "violation": vio[0] if vio else None,
                                                      "detail": [x[:300] for x in detail], "wall_s": round(time.time() - t0, 1)}
                 print(sid, prop, "exit", r.returncode, vio[0] if vio else "-", flush=True)
+                # keep the failing cases of the property's own check next to the change: they feed the corpus
+                if prop == pid and vio and "replay=" in vio[0]:
+                    rp = vio[0].split("replay=")[1].split()[0]
+                    try:
+                        v = json.load(open(rp))
+                        keep = [{"kind": c["kind"], "args": c["args"]} for c in v.get("cases", [])[:3]]
+                        if v.get("minimized"):
+                            keep.append({"kind": v["minimized"]["kind"], "args": v["minimized"]["args"]})
+                        json.dump({"kind": v.get("kind"), "message": v.get("message", "")[:300], "cases": keep},
+                                  open(os.path.join(d, "failing_cases.json"), "w"), indent=1)
+                    except (OSError, ValueError, KeyError):
+                        pass
         finally:
             subprocess.run(["git", "-C", "/repo", "checkout", "--", "."], check=True)
         json.dump(results, open(resfile, "w"), indent=1)
 
 
+def do_corpus():
+    """corpus/<prop>/seeded.txt from the failing cases recorded for each seeded change: inputs that once told
+    a broken tree from the real one run first on every check (model vs implementation only)"""
+    by_prop = {}
+    for sid in sorted(os.listdir(SEEDED)):
+        fp = os.path.join(SEEDED, sid, "failing_cases.json")
+        if not os.path.exists(fp):
+            continue
+        pid = sid.split("-")[0]
+        for c in json.load(open(fp))["cases"]:
+            if sum(len(a) for a in c["args"]) > 20000:
+                continue
+            line = "\t".join([c["kind"]] + c["args"])
+            by_prop.setdefault(pid, [])
+            if line not in by_prop[pid]:
+                by_prop[pid].append(line)
+    for pid, lines in by_prop.items():
+        os.makedirs(os.path.join(ROOT, "corpus", pid), exist_ok=True)
+        with open(os.path.join(ROOT, "corpus", pid, "seeded.txt"), "w") as f:
+            f.write("\n".join(lines) + "\n")
+        print(pid, len(lines), "corpus cases")
+
+
 if __name__ == "__main__":
     if sys.argv[1] == "import":
         do_import()
+    elif sys.argv[1] == "corpus":
+        do_corpus()
     else:
         ids = sys.argv[2:] or sorted(d for d in os.listdir(SEEDED) if os.path.isdir(os.path.join(SEEDED, d)))
         do_run(ids)
